@@ -13,6 +13,7 @@ import (
 	"github.com/hashicorp/go-hclog"
 	"github.com/hashicorp/raft"
 	"github.com/hashicorp/raft-wal/metrics"
+	"github.com/hashicorp/raft-wal/verifhook"
 )
 
 var _ raft.LogStore = &LogStore{}
@@ -70,6 +71,7 @@ func NewLogStore(store raft.LogStore, checkpointFn IsCheckpointFn, reportFn Repo
 		checkpointFn: checkpointFn,
 		reportFn:     reportFn,
 	}
+	verifhook.At("verifier.spawn", "")
 	go c.runVerifier()
 	return c
 }
@@ -218,8 +220,10 @@ func (s *LogStore) StoreLogs(logs []*raft.Log) error {
 func (s *LogStore) triggerVerify(r VerificationReport) {
 	select {
 	case s.verifyCh <- r:
+		verifhook.At("verifier.sent", "")
 	default:
 		s.metrics.IncrementCounter("dropped_reports", 1)
+		verifhook.At("verifier.dropped", "")
 	}
 }
 
@@ -235,6 +239,7 @@ func (s *LogStore) Close() error {
 		return nil
 	}
 	close(s.verifyCh)
+	verifhook.At("verifier.chanClosed", "")
 	// Don't set verifyCh to nil as that's racey - it's being accessed from other
 	// routines.
 	if closer, ok := s.s.(io.Closer); ok {
